@@ -28,11 +28,12 @@ ASSUMPTIONS = ['key universes of <= 6 keys, node sizes 2/2 and 2/3, 3/2',
 
 def bounds(tier):
     return ('quick: cover families N=5 @2/2 (C and Py), N=5 @2/3 and 3/2 (C), other families N=4; '
-            'plus thinning spaces of 8 keys; thorough: all families N=6, thinning 10')
+            'plus thinning spaces of 8 keys; stored trees (II OO fs, N=5 @2/2) accepted with every single node / all nodes '
+            'turned into ghosts first; thorough: all families N=6, thinning 10')
 
 
 def required_guards(tier):
-    return ['height>=3', 'accepted', 'mutants_corrupt', 'op:swap', 'op:dup',
+    return ['height>=3', 'accepted', 'stored_accept', 'mutants_corrupt', 'op:swap', 'op:dup',
             'op:key_low', 'op:key_high', 'op:sep_low', 'op:sep_high', 'op:next_drop', 'op:next_skip',
             'op:next_self', 'op:next_back', 'op:leaf_empty', 'op:node_empty', 'op:firstbucket',
             'op:mixed_kinds']
@@ -68,9 +69,17 @@ def configs(tier):
 
 
 def jobs(tier):
-    return [{'fn': 'job', 'weight': w, 'group': '%s/%s' % (impl, kind),
-             'args': dict(fam=fam, kind=kind, impl=impl, sizes=sizes, n=n, variant=var, thin=thin)}
-            for fam, kind, impl, sizes, n, var, thin, w in configs(tier)]
+    js = [{'fn': 'job', 'weight': w, 'group': '%s/%s' % (impl, kind),
+           'args': dict(fam=fam, kind=kind, impl=impl, sizes=sizes, n=n, variant=var, thin=thin)}
+          for fam, kind, impl, sizes, n, var, thin, w in configs(tier)]
+    # stored trees with ghost nodes at the moment the checkers run
+    for fam in (('II', 'OO', 'fs') if tier == 'quick' else F.COVER):
+        for impl in F.IMPLS:
+            for kind in F.TREE_KINDS:
+                js.append({'fn': 'jar_job', 'weight': 10 if impl == 'c' else 30, 'group': '%s/jar' % impl,
+                           'args': dict(fam=fam, kind=kind, impl=impl, sizes=(2, 2),
+                                        n=5 if tier == 'quick' else 6)})
+    return js
 
 
 # --------------------------------------------------------------------------
@@ -329,7 +338,78 @@ def job(fam, kind, impl, sizes, n, variant, thin=None):
     return res
 
 
+def jar_job(fam, kind, impl, sizes, n):
+    """Accept side for STORED trees: every state of the space is committed step by step through
+    vt.minidb, opened in a fresh connection and checked with every single node, and with all nodes,
+    turned into a ghost first - the checkers have to load what they look at (a ghost has no children,
+    no keys and no `next`), so a sound tree must still be accepted."""
+    from .. import minidb as M
+    from ..report import Reporter
+    import collections
+    ctx = O.Ctx(fam, kind, impl)
+    ex = S.explorer(fam, kind, impl, sizes, n, 'centred', 'C18')
+    states = []
+    ex.state_monitors.append(lambda e, hist, t, model, c: states.append((hist, model.copy())))
+    ex.run()
+    rep = Reporter('C18')
+    guards = collections.Counter(ex.guards)
+    evaluations = 0
+    sample = None
+    base = dict(fam=fam, kind=kind, impl=impl, sizes=sizes, n=n, variant='centred', jar=True)
+    for hist, model in states:
+        if rep.full:
+            break
+        st = M.Storage()
+        c0 = M.Connection(st)
+        t0 = ctx.new()
+        c0.add(t0)
+        c0.commit()
+        for op in hist:
+            O.fast_apply(ctx, t0, op)
+            c0.commit()
+        conn, t = M.open_tree(st, t0._p_oid)
+        try:
+            ok = O.contents(ctx, t) == model.contents() and not C.walk(C.dump(t, True), ctx.is_map)
+        except Exception:       # noqa
+            ok = False
+        if not ok:
+            guards['bases_skipped_damaged(C04:F12b)'] += 1
+            continue
+        nodes = sorted(conn.objects(), key=lambda o: o._p_oid)
+        for choice in ['all'] + list(range(len(nodes))):
+            slot_case = dict(base, history=[list(o) for o in hist], op=['accept-stored', choice])
+            conn.sweep()
+            O.contents(ctx, t)          # everything loaded again
+            C.dump(t, True)
+            if choice == 'all':
+                conn.sweep()
+            else:
+                nodes[choice]._p_deactivate()
+                if nodes[choice]._p_state != -1:
+                    continue            # the root while in use etc.
+            guards['stored_accept'] += 1
+            evaluations += 1
+            j = judge(ctx, t)
+            if j != ('accepted',):
+                rep.add(dict(fam=fam, kind=kind, impl=impl, site='accept-stored', cls=j[0],
+                             ghost='all' if choice == 'all' else 'one'), slot_case,
+                        'sound stored tree with %s turned into a ghost: %r'
+                        % ('every node' if choice == 'all' else 'node %d (%s)' % (choice, type(nodes[choice]).__name__), j))
+            if sample is None and len(nodes) >= 5 and choice == 2:
+                sample = slot_case
+    return dict(states=len(states), transitions=evaluations, compared=evaluations, evaluations=evaluations,
+                distinct=evaluations, exhaustive=not rep.full, guards=dict(guards), outcomes={},
+                violations=rep.all(), sample=sample)
+
+
 def replay(case):
+    if case.get('jar'):
+        r = jar_job(case['fam'], case['kind'], case['impl'], tuple(case['sizes']), case['n'])
+        import json
+        from ..runner import _jsonable
+        norm = lambda x: json.dumps(_jsonable(x), sort_keys=True, default=repr)
+        return dict(violations=[v for v in r['violations'] if all(
+            norm(v['case'].get(k)) == norm(case.get(k)) for k in ('history', 'op'))])
     ctx, t, m = S.replay_state(case)
     keys, grid = F.universe(case['fam'], case['n'], case['variant'])
     c = C.dump(t, True)
